@@ -188,11 +188,15 @@ func classifyBuildError(out string) string {
 }
 
 func runC13Family() (runs int, problems []buildProblem, err error) {
+	return runBuildFamily("c13", c13Cases(), [][]string{{"protoc-gen-go-http"}, {"protoc-gen-go-client"}, {"protoc-gen-go-http", "protoc-gen-go-client"}}, nil)
+}
+
+// runBuildFamily emits, builds and vets one package per (definition, plugin subset).
+func runBuildFamily(tag string, cases []buildCase, subsets [][]string, params map[string]string) (runs int, problems []buildProblem, err error) {
 	var mu sync.Mutex
 	var wg sync.WaitGroup
 	sem := make(chan struct{}, 6)
-	subsets := [][]string{{"protoc-gen-go-http"}, {"protoc-gen-go-client"}, {"protoc-gen-go-http", "protoc-gen-go-client"}}
-	for ci, c := range c13Cases() {
+	for ci, c := range cases {
 		for si, sub := range subsets {
 			c, sub, ci, si := c, sub, ci, si
 			wg.Add(1)
@@ -201,7 +205,7 @@ func runC13Family() (runs int, problems []buildProblem, err error) {
 				sem <- struct{}{}
 				defer func() { <-sem }()
 				label := strings.ReplaceAll(strings.Join(sub, "+"), "protoc-gen-", "")
-				pkgDir, outs, eerr := EmitPackage(c.Build(), fmt.Sprintf("c13-%d-%d", ci, si), sub, nil)
+				pkgDir, outs, eerr := EmitPackage(c.Build(), fmt.Sprintf("%s-%d-%d", tag, ci, si), sub, params)
 				mu.Lock()
 				runs++
 				mu.Unlock()
